@@ -880,7 +880,9 @@ func execute(c caseSpec, o *oracle) (viol []violation, err error) {
 
 var (
 	methods = []string{"GET", "POST"}
-	urls    = []string{"h.com/a", "h.com/b", "h.com/a/b"}
+	// URLs that differ only in the port of the host part (or in having one) or in the letter case of the path are
+	// different URLs
+	urls = []string{"h.com/a", "h.com/b", "h.com/a/b", "h.com:8080/a", "h.com:9090/a", "h.com/A"}
 	// values shared between different parameters, and values holding the separator a naive join would use:
 	// {id:7} / {zzz:7} and {id:"1.x"} / {id:"1", org:"x"} are different keys
 	idValues  = []string{"", "1", "2", "7", "1.x", "x"}
